@@ -1049,6 +1049,9 @@ pub fn run(ctx: &mut Ctx) {
 			if !ctx.owns("stale", i) {
 				continue;
 			}
+			if !ctx.replaying() && !ctx.time_left(0.62) {
+				break;
+			}
 			let mut r = Rng::for_case(ctx.seed, 802, i);
 			ctx.eval();
 			match super::guarded(|| stale_id_case(&mut r).and_then(|_| chain_case(&mut r)).and_then(|_| modulator_slot_case(&mut r))) {
